@@ -407,6 +407,41 @@ def validate_skeleton_paths(ctx, inputs, impl):
     ctx.cov["skeleton"]["not_a_path"] = bad
 
 
+def validate_skeleton_replay(ctx, inputs, impl):
+    """L2: every observed run, replayed in SkelSys (the transition system that interprets the regenerated skeleton), must be a run
+    of it with the same events: ties the meaning given to the skeleton's actions to the running code."""
+    path_in, path_out = ctx.path("enginetrace.in.jsonl"), ctx.path("skelreplay.model.jsonl")
+    if not os.path.exists(path_in):
+        return
+    with open(path_in) as fin:
+        p = subprocess.run([DRIVER_SKEL, "skelreplay"], stdin=fin, capture_output=True, text=True, timeout=3000)
+    open(path_out, "w").write(p.stdout)
+    if p.returncode != 0:
+        ctx.l2_broken.append({"stream": "skeleton-replay", "detail": (p.stdout + p.stderr)[-1500:]})
+        return
+    byid = {s["id"]: s for s in inputs}
+    plans_of = {s["id"]: (impl[s["id"]].get("plans") or s["plans"]) for s in inputs if "runs" in impl.get(s["id"], {})}
+    n, ev, bad = 0, 0, 0
+    for r in read_jsonl(path_out):
+        out = r["out"]
+        if "driver_error" in out:
+            ctx.l2_broken.append({"stream": "skeleton-replay", "id": r["id"], "detail": out["driver_error"]})
+            continue
+        for k, run in enumerate(out["runs"]):
+            if impl[r["id"]]["runs"][k].get("watchdog"):
+                continue
+            n += 1
+            ev += run["events"]
+            if run["mismatch"]:
+                bad += 1
+                if bad <= 3:
+                    scn = byid[r["id"]]
+                    ctx.l2_broken.append(dict(run["mismatch"], stream="skeleton-replay", id=r["id"], input=dict(scn, plans=[plans_of[r["id"]][k]])))
+    ctx.cov["skeleton"]["runs_replayed_in_the_interpreted_skeleton"] = n
+    ctx.cov["skeleton"]["events_reproduced"] = ev
+    ctx.cov["skeleton"]["replay_mismatches"] = bad
+
+
 def run_check(ctx, prop, components, nontrivial, rule, quick_n=120, thorough_n=1500):
     ctx.cov["trusted_base"] = TRUSTED
     have_skel = regen_skeleton(ctx)
@@ -419,6 +454,7 @@ def run_check(ctx, prop, components, nontrivial, rule, quick_n=120, thorough_n=1
     validate_traces(ctx, inputs, impl, components)
     if have_skel:
         validate_skeleton_paths(ctx, inputs, impl)
+        validate_skeleton_replay(ctx, inputs, impl)
     runs, nt = evaluate(ctx, prop, inputs, impl, nontrivial)
     ctx.cov["evaluations"] = runs
     ctx.cov["scenarios"] = len(inputs)
